@@ -28,7 +28,7 @@ from engine import dump, traces
 LEVEL = 'model_checking'
 
 # ------------------------------------------------------------------ projection of real results (shared by both bindings)
-MSG_RE = re.compile(r'MSG_(A1|A2|A3|CM|WR|TM|LA|EM|B1|B2)@p(\d)')
+MSG_RE = re.compile(r'MSG_(A1|A2|A3|CM|WR|TM|LA|EM|B1|B2|OW)@p(\d)')
 NOTE_RE = re.compile(r'NOTE(\d+)(?:@p(\d+))?')
 SUBSTR_TOKENS = [('MITx Grading Library Version', 'BANNER'), ('Running on edX using python', 'PYVER'),
                  ('Student Response', 'STUDENT_RESPONSE'), ('Comparison Data for All', 'LOGCMP'),
@@ -36,7 +36,7 @@ SUBSTR_TOKENS = [('MITx Grading Library Version', 'BANNER'), ('Running on edX us
                  ('Maximum credit is', 'LOGMAX'), ('Expect value inferred', 'LOGINFER'),
                  ('Using modified defaults', 'LOGDEFAULTS'), ('zqans', 'ANSWER'),
                  ('Maximum credit for attempt #', 'ATT')]
-MODEL_VOCAB = {'A1', 'A2', 'A3', 'CM', 'W', 'TM', 'LA', 'EM', 'B1', 'B2', 'ATT', 'BANNER', 'LOGCMP', 'LOGATT'}
+MODEL_VOCAB = {'A1', 'A2', 'A3', 'CM', 'W', 'TM', 'LA', 'EM', 'B1', 'B2', 'OW', 'ATT', 'BANNER', 'LOGCMP', 'LOGATT'}
 ITEM_KEYS = ['grade_decimal', 'msg', 'ok']
 
 
@@ -277,6 +277,50 @@ def realise(part, ch, host, k=0):
     return g, inp, pins, n, form, extra[0], extra[1]
 
 
+HARMLESS_DEFAULTS = [{'suppress_warnings': True}, {'attempt_based_credit_msg': True}, {'suppress_warnings': False}]
+
+
+def family_classes(cls):
+    """the classes of the grader's family on which defaults can be registered: the class itself and its bases"""
+    from mitxgraders.baseclasses import ObjectWithSchema
+    return [c for c in cls.__mro__ if issubclass(c, ObjectWithSchema) and c is not ObjectWithSchema and c is not object]
+
+
+def build_other(cls, k):
+    """another grader of the family, built by an author who is debugging THAT problem"""
+    import mitxgraders as mg
+    sibs = [cls, mg.StringGrader, mg.FormulaGrader, mg.NumericalGrader]
+    c = sibs[k % len(sibs)]
+    kw = dict(debug=True, wrong_msg='MSG_OW@p0', attempt_based_credit=lambda n: 0.5)
+    answers = {'StringGrader': 'other', 'MatrixGrader': '[3,4]'}.get(c.__name__, '7')
+    g = c(answers={'expect': answers, 'msg': 'MSG_OW@p0'}, **kw)
+    try:
+        g(None, answers, attempt=3)
+    except Exception:  # noqa
+        pass
+    return g
+
+
+def with_prehistory(pre, cls, k, construct):
+    """construct() after the construction history `pre` of the class family; registered defaults are always cleared"""
+    if pre in (None, 'none'):
+        return construct()
+    fam = family_classes(cls)
+    touched = []
+    try:
+        if pre in ('reg', 'reg_other'):
+            levels = [fam[k % len(fam)]] + ([fam[-1]] if k % 3 == 0 else [])
+            for j, c in enumerate(levels):
+                c.register_defaults(dict(HARMLESS_DEFAULTS[(k + j) % len(HARMLESS_DEFAULTS)]))
+                touched.append(c)
+        if pre in ('other', 'reg_other'):
+            build_other(cls, k // 2)
+        return construct()
+    finally:
+        for c in touched:
+            c.clear_registered_defaults()
+
+
 def _realise(part, ch, host, k):
     import mitxgraders as mg
     from engine.fixtures import TableGrader
@@ -287,27 +331,35 @@ def _realise(part, ch, host, k):
     pins = set()
     for lf in leaves:
         pins |= pins_of(a['ans'] for a in lf['alts'])
-    if part == 'item':
+    if part in ('item', 'family'):
         lf = leaves[0]
         cls = getattr(mg, HOSTS[host][0])
+        pre = head.get('pre', 'none')
         wrong = '' if lf['wrong'] is False else 'MSG_WR@p0'
         if host == 'string':
             # comparer True = the cleaned input equals this alternative's text, False = it does not
             answers = []
-            for k, alt in enumerate(lf['alts']):
+            for ai, alt in enumerate(lf['alts']):
                 credit, pin = ANS[alt['ans']]
-                a = {'expect': 'hit' if alt['cmps'] == ['T'] else 'miss%d' % k, 'grade_decimal': fl(credit),
-                     'msg': 'MSG_A%d@p0' % (k + 1)}
+                a = {'expect': 'hit' if alt['cmps'] == ['T'] else 'miss%d' % ai, 'grade_decimal': fl(credit),
+                     'msg': 'MSG_A%d@p0' % (ai + 1)}
                 if pin is not None:
                     a['ok'] = pin
                 answers.append(a)
-            return cls(answers=tuple(answers), wrong_msg=wrong, **kw), 'hit', pins, 1, 'item', X
-        cfg = dict(answers=leaf_answers(lf, 0, host, corr=head['corr']), wrong_msg=wrong, **kw)
+            kw = dict(kw) if (wrong == '' and pre != 'none') else dict(kw, wrong_msg=wrong)   # '' after a history: none passed
+            if not kw['debug'] and pre != 'none':
+                del kw['debug']
+            return with_prehistory(pre, cls, k, lambda: cls(answers=tuple(answers), **kw)), 'hit', pins, 1, 'item', X
+        cfg = dict(answers=leaf_answers(lf, 0, host, corr=head['corr']), **kw)
+        if wrong != '' or pre == 'none':
+            cfg['wrong_msg'] = wrong        # after a construction history: 'no wrong_msg' = the author passes none
         if host != 'numerical':
             cfg.update(samples=head['samples'], failable_evals=head['failable'])
         if host == 'matrix':
             cfg.update(GUARD_CFG[head.get('guard', 'raise')])
-        return cls(**cfg), HOSTS[host][2], pins, 1, 'item', X
+        if not cfg['debug'] and pre != 'none':
+            del cfg['debug']                # ... and 'debug off' = the author passes no debug option
+        return with_prehistory(pre, cls, k, lambda: cls(**cfg)), HOSTS[host][2], pins, 1, 'item', X
     if part == 'single':
         n_e, n_i = head['expected'], head['submitted']
         lw = [lf['wrong'] for lf in leaves if lf['wrong'] is not None]
@@ -354,7 +406,7 @@ def _realise(part, ch, host, k):
     for grp in groups:
         gsubs, gans = [], []
         for pos in grp:
-            lf = next(it)
+            lf = next(it, None) or {'kind': 'table', 'table': 'c1', 'wrong': None, 'alts': []}
             wrong = '' if lf['wrong'] is False else 'MSG_WR@p%d' % pos
             if lf['kind'] == 'table':
                 g = fl(CREDIT[lf['table']])
@@ -382,7 +434,13 @@ def _realise(part, ch, host, k):
     cfg = dict(subgraders=subs, ordered=True, partial_credit=head['partial_credit'], answers=answers, **kw)
     if layout in GROUPING:
         cfg['grouping'] = GROUPING[layout]
-    return mg.ListGrader(**cfg), inputs, pins, n, 'list', X
+    # the student (or rather the problem's XML) submits too few / too many input boxes
+    sub = head.get('submitted', 'exact')
+    if sub == 'short':
+        inputs = inputs[:-1] if k % 2 else inputs[:-2] or inputs[:-1]
+    elif sub == 'long':
+        inputs = inputs + [inputs[-1]] * (1 + k % 2)
+    return mg.ListGrader(**cfg), inputs, pins, len(inputs), 'list', X
 
 
 def model_item(m):
@@ -426,7 +484,7 @@ def compare_result(mres, result, ignore=frozenset()):
 
 
 def hosts_for(part, ch, head, k, all_hosts=True):
-    if part == 'item':
+    if part in ('item', 'family'):
         cmps = [v for t, v in ch if t == 'cmp']
         if any(v in ERR_EVENTS for v in cmps):
             return ['matrix']               # only MatrixGrader guards its check_response
@@ -454,12 +512,13 @@ def _call(fn):
 def run_vector(part, ch, host, k=0):
     """-> list of observations, one per call of the history: (result or None, error text or None, meta)"""
     g, inp, pins, n, form, attempt, objs = realise(part, ch, host, k)
-    head = decode(ch)[0]
-    meta = {'pins': sorted(pins), 'n_inputs': n, 'form': form, 'cls': type(g).__name__, 'debug': g.config['debug'],
+    head, _, tail = decode(ch)
+    # debug: what the AUTHOR passed when building the called grader (not what the object says about itself now)
+    meta = {'pins': sorted(pins), 'n_inputs': n, 'form': form, 'cls': type(g).__name__, 'debug': bool(tail.get('debug', False)),
             'call': 'list' if part == 'shared' else 'only'}
     result, err = _call(lambda: g(None, inp, attempt=attempt))
     out = [(result, err, meta)]
-    if part == 'shared':
+    if part == 'shared' and 'alone' in head:
         # second call of the history: the subgrader object, configured with its own debug flag, on its own
         child, cinp, cpins = objs[head['alone'] - 1]
         cmeta = {'pins': sorted(cpins), 'n_inputs': 1, 'form': 'item', 'cls': type(child).__name__,
@@ -486,22 +545,35 @@ def replay_states(states, extra):
     for st in states:
         if st.get('st') not in ('returned', 'raised'):
             continue
-        if part == 'shared' and st['cf']['phase'] != 2:
+        if part == 'shared' and st['st'] == 'returned' and st['cf']['phase'] != 2:
             continue                        # the history goes on: the subgrader is called next
         n_term += 1
         ch = st['ch']
         head = decode(ch)[0]
         if st['st'] == 'raised':
-            # the model says the call raises the shape / type error: nothing is returned, nothing to judge
-            (result, err, meta), = run_vector(part, ch, 'matrix', k)
+            # the model says the call raises (a shape / type error that is not suppressed, or a submission with the
+            # wrong number of inputs): nothing is returned, nothing to judge -- but whatever IS returned gets judged
+            wrong_len = head.get('submitted', 'exact') != 'exact'
+            expected = ('ConfigError',) if wrong_len else ('MathArrayShapeError', 'InputTypeError', 'ArgumentShapeError')
+            host = 'matrix' if not wrong_len else ['formula', 'matrix'][k % 2]
+            k += 1
+            result, err, meta = run_vector(part, ch, host, k)[0]
             n_calls += 1
             n_raised += 1
-            wrong_exit = err is None or err.split(':')[0] not in ('MathArrayShapeError', 'InputTypeError', 'ArgumentShapeError')
+            wrong_exit = err is None or err.split(':')[0] not in expected
             n_drift += wrong_exit
             if wrong_exit:
-                note('matrix', ch, 'model raises the shape/type error, code %s' % (
-                    'returned %s' % brief(result, 120) if err is None else 'raised ' + err))
-            keys.add((part, 'MatrixGrader', 'raised', ()))
+                note(host, ch, 'model raises %s, code %s' % ('/'.join(expected), 'returned %s' % brief(result, 120) if err is None else 'raised ' + err))
+            if err is None:
+                rec = project(result)
+                rec.update(cls=meta['cls'], form=meta['form'], n_inputs=meta['n_inputs'], debug=meta['debug'], pinned=meta['pins'])
+                text = json.dumps(rec, sort_keys=True)
+                ex = {'part': part, 'host': host, 'ch': ch, 'result': brief(result), 'model_verdict': 'raises', 'call': meta['call'], 'k': k}
+                if text in classes:
+                    classes[text][0] += 1
+                else:
+                    classes[text] = [1, ex]
+            keys.add((part, meta['cls'], 'raised', 'length' if wrong_len else 'shape'))
             continue
         if st['vd'] != '':
             n_pred += 1
@@ -1008,6 +1080,12 @@ def gen_list(rng, sub=False):
             inputs[box] = src[j]
     for _ in range(rng.choice([0, 0, 1, 2])):
         inputs[rng.randrange(len(inputs))] = rng.choice(['zzz', '', '7', 'i5', rng.choice(GARBAGE)])
+    # the problem submits more or fewer input boxes than the grader was configured for (flat, grouped, nested alike)
+    r = rng.random()
+    if r < 0.12:
+        inputs = inputs + [rng.choice(inputs + ['zzz', ''])] * rng.choice([1, 1, 2])
+    elif r < 0.2:
+        inputs = inputs[:-1]
     d['inputs'] = inputs
     return d
 
@@ -1054,15 +1132,16 @@ def build_answers(a):
     return a
 
 
-def build(d, top=True):
+def build(d, top=True, omit_debug_off=False):
     import mitxgraders as mg
     from engine.fixtures import TableGrader
     kw = dict(d.get('kw', {}))
     if kw.get('user_functions') == 'fg':
         kw['user_functions'] = {'f': lambda a: a + 1, 'g': lambda a, b: a - 2 * b}
     cls = d['cls']
-    if top:
+    if top and (d.get('debug', False) or not omit_debug_off):
         kw['debug'] = d.get('debug', False)
+    if top:
         ac = d.get('attempt_credit')
         if ac:
             if ac['kind'] == 'const':
@@ -1108,6 +1187,34 @@ def table_positions(d, result):
     return None
 
 
+def build_after_history(d):
+    """build the grader of case d after the construction history d['family'] (registered defaults are always cleared).
+    What the author passes for d is exactly its descriptor: debug only when True."""
+    fam = d.get('family')
+    if not fam:
+        return build(d)
+    import mitxgraders as mg
+    from engine.fixtures import TableGrader
+    cls = TableGrader if d['cls'] == 'TableGrader' else getattr(mg, d['cls'])
+    classes = family_classes(cls)
+    touched = []
+    try:
+        if fam['pre'] in ('reg', 'reg_other'):
+            c = classes[fam['level'] % len(classes)]
+            c.register_defaults(dict(HARMLESS_DEFAULTS[fam['level'] % len(HARMLESS_DEFAULTS)]))
+            touched.append(c)
+        if fam['pre'] in ('other', 'reg_other'):
+            try:
+                o = build(fam['other'])
+                o(None, fam['other']['inputs'], attempt=fam['other']['attempt'])
+            except Exception:  # noqa -- the other author's problem may well be broken
+                pass
+        return build(d, omit_debug_off=True)
+    finally:
+        for c in touched:
+            c.clear_registered_defaults()
+
+
 def _record(d, cls, inputs, result, debug, pins):
     rec = project(result)
     is_list = isinstance(inputs, list)
@@ -1132,10 +1239,10 @@ def observe_case(d):
     directly afterwards.  Every call that returns is judged against the debug flag its grader was CONFIGURED with.
     -> list of observations {label, rec (None when the call raised), outcome, result}"""
     try:
-        g = build(d)
+        g = build_after_history(d)
     except Exception as e:
         return [{'label': 'call', 'rec': None, 'outcome': 'config:%s' % type(e).__name__, 'result': None}]
-    pins = sorted(collect_pins(d, set()))
+    pins = sorted(collect_pins({k: v for k, v in d.items() if k != 'family'}, set()))
     kwargs = {'attempt': d['attempt']} if d.get('attempt_credit') or d['attempt'] % 2 else {}
     calls = [('call', g, d['cls'], d['inputs'], kwargs, d.get('debug', False))]
     if d.get('again'):
@@ -1179,9 +1286,21 @@ def observe_chunk(items, extra):
         for k in range(count):
             name, gen = GENERATORS[rng.randrange(len(GENERATORS))]
             d = r_common(rng, gen(rng))
+            if rng.random() < 0.2:
+                # construction history of the class family before this grader is built: defaults registered on a
+                # class of the family and / or another grader of the same kind built with debug=True
+                other = r_common(rng, gen(rng))
+                other['debug'] = True
+                d['family'] = {'pre': rng.choice(['reg', 'other', 'reg_other', 'reg_other']), 'level': rng.randrange(6),
+                               'other': other}
             for j, o in enumerate(observe_case(d)[:HISTORY_MAX]):
                 key = '%s:%s' % (d['cls'] if j == 0 else o['label'].rstrip('01'), o['outcome'])
                 stats[key] = stats.get(key, 0) + 1
+                if j == 0 and 'family' in d:
+                    stats['family:' + o['outcome']] = stats.get('family:' + o['outcome'], 0) + 1
+                if j == 0 and isinstance(d['inputs'], list) and d['cls'] == 'ListGrader':
+                    lk = 'listlen:%s' % o['outcome'].split(':')[0]
+                    stats[lk] = stats.get(lk, 0) + 1
                 if o['rec'] is None:
                     continue
                 rid = start + k * HISTORY_MAX + j
@@ -1193,13 +1312,13 @@ def observe_chunk(items, extra):
 
 # ------------------------------------------------------------------ the check
 HISTORY_MAX = 4
-PARTS = ['item', 'single', 'interval', 'list', 'shared']
+PARTS = ['item', 'family', 'single', 'interval', 'list', 'shared']
 COMMON_ACTIONS = ['Start', 'LeafStart', 'NextAlt', 'Compare', 'Standardize', 'Multiply', 'ConsolidateSamples', 'Best',
                   'StripKeys', 'AttemptCredit', 'DebugAppend', 'FormatMessages']
-PART_ACTIONS = {'item': ['MatrixGuard'], 'single': ['Pad', 'SingleConsolidate', 'SingleAward', 'OuterBest'],
+PART_ACTIONS = {'item': ['MatrixGuard'], 'family': [], 'single': ['Pad', 'SingleConsolidate', 'SingleAward', 'OuterBest'],
                 'interval': ['Brackets', 'SingleConsolidate', 'SingleAward', 'OuterBest'],
-                'list': ['TableReturn', 'NestedCheck', 'UngroupStage', 'ZeroIfImperfect'],
-                'shared': ['UngroupStage', 'ZeroIfImperfect', 'FollowUp']}
+                'list': ['ValidateSubmission', 'TableReturn', 'NestedCheck', 'UngroupStage', 'ZeroIfImperfect'],
+                'shared': ['ValidateSubmission', 'UngroupStage', 'ZeroIfImperfect', 'FollowUp']}
 
 
 def first_counterexample(out):
@@ -1247,7 +1366,9 @@ def run_replay(ctx, variant=''):
 
 
 FLAWS = [('flaw_staleok', 'the comparer\'s ok survives the multiplication by the answer credit (repaired in /repo by 370d190)'),
-         ('flaw_childdebug', 'a debugging ListGrader leaves debug switched on in its subgrader objects')]
+         ('flaw_childdebug', 'a debugging ListGrader leaves debug switched on in its subgrader objects'),
+         ('flaw_aliaseddefaults', 'the registered defaults dictionary of a class is updated with each grader\'s options, so '
+                                  'graders built later inherit them')]
 
 
 def run(ctx):
@@ -1302,7 +1423,7 @@ def run(ctx):
     for k in stats_r:
         ctx.nontrivial.add(('random', k))
     ctx.extra['random_outcomes'] = dict(sorted(stats_r.items()))
-    vac = [name for name in [g[0] for g in GENERATORS] + ['again', 'alone'] if stats_r.get('%s:returned' % name, 0) == 0]
+    vac = [name for name in [g[0] for g in GENERATORS] + ['again', 'alone', 'family'] if stats_r.get('%s:returned' % name, 0) == 0]
     if vac:
         raise Machinery('random driver produced no returned value for %s' % vac)
 
